@@ -21,6 +21,11 @@ let () =
       ((match check_validity (z_of_hex cur) (z_of_hex ct) (z_of_hex ex) (z_of_hex kct) (n_of_hex ha) with
         | Valid -> "1" | _ -> "0"), out) | _ -> bad ());
   register "aead_nonce" (function [iv; c; out] -> (tb (chunk_nonce_impl (bt iv) (nat_of_int (int_of_string c))), out) | _ -> bad ());
+  register "hin_verify" (function [v; ty; pk; h; hspd; ct; meta; d; out] ->
+      ((match verify_hash_input (n_of_int (int_of_string v)) (n_of_int (int_of_string ty)) (n_of_hex pk) (n_of_hex h) (bt hspd) (n_of_hex ct) (bt meta)
+                (ty = "1") (bt d) with
+        | Some l -> tb l | None -> "none"), out)
+    | _ -> bad ());
   register "aead_ad" (function [pre; kind; idx; total; _; out] ->
       ((if kind = "f" then tb (final_ad (bt pre) (n_of_hex idx) (n_of_hex total)) else tb (chunk_ad (bt pre) (n_of_hex idx))), out)
     | _ -> bad ());
